@@ -11,7 +11,7 @@ import (
 // depthTerm builds a loop of the given kind that runs n iterations without yielding
 // (bodies ending in Continue or Normal), yields a few times near the end, and is followed
 // by one more yield. quiet says which signal the non-yielding iterations end in.
-func depthTerm(kind TK, n int, quiet TK, nested bool) *Term {
+func depthTerm(kind TK, n int, quiet TK, nested int) *Term {
 	y := &Term{K: TBind, RecvCtr: -1, Val: Expr{Ctr: 0, Lit: 0}, Th: &Thunk{Pre: []Stmt{{Tag: 5, Ctr: -1}}, Ret: leaf(TNormal)}}
 	var body *Term
 	switch kind {
@@ -22,12 +22,21 @@ func depthTerm(kind TK, n int, quiet TK, nested bool) *Term {
 		// first n-3 iterations quiet, then yielding ones
 		body = &Term{K: TDelay, RecvCtr: -1, Th: &Thunk{Pre: []Stmt{{Tag: 1, Ctr: 0, Delta: 1}}, If: &Cond{Tag: 2, Ctr: 1, Limit: n - 3}, Ret: leaf(quiet), Else: y}}
 	}
-	if nested {
+	switch nested {
+	case 1:
 		// before the quiet body runs a short inner loop that iterates twice without yielding in
 		// EVERY outer iteration (its counter is rewound by the thunk in front of it)
 		inner := &Term{K: TWhile, RecvCtr: -1, Cond: &Cond{Tag: 9, Ctr: 3, Limit: 2}, A: leaf(TNormal)}
 		rewind := &Term{K: TDelay, RecvCtr: -1, Th: &Thunk{Pre: []Stmt{{Tag: 8, Ctr: 3, Delta: -3}}, Ret: inner}}
 		body = &Term{K: TCombine, RecvCtr: -1, A: rewind, B: body}
+	case 2:
+		// the same inner loop as ONE loop value, not behind a thunk (what the optimiser leaves of
+		// an init-less inner loop at the head of a loop body): every outer iteration runs the
+		// same value again; the depth is sampled inside its condition and post statement. Its
+		// counter is rewound by the quiet body's thunk
+		inner := &Term{K: TFor, RecvCtr: -1, Cond: &Cond{Tag: 9, Ctr: 3, Limit: 2}, Post: []Stmt{{Tag: 10, Ctr: -1}}, A: leaf(TNormal)}
+		body.Th.Pre = append([]Stmt{{Tag: 8, Ctr: 3, Delta: -3}}, body.Th.Pre...)
+		body = &Term{K: TCombine, RecvCtr: -1, A: inner, B: body}
 	}
 	loop := &Term{K: kind, RecvCtr: -1, A: body}
 	if kind != TLoop {
@@ -87,12 +96,12 @@ func C17(j *core.Job) {
 		r := prng.Derive(j.Seed, "C17", b)
 		kind := kinds[b%3]
 		quiet := quiets[(b/3)%2]
-		nested := (b/6)%2 == 1
+		nested := (b / 6) % 3
 		jitter := r.Intn(7)
 	ladder:
 		for _, n := range sizes {
 			n += jitter
-			c := &Case{Property: "C17", Layer: "R", Oracle: fmt.Sprintf("depth %s/%s nested=%v", tkName[kind], tkName[quiet], nested), Seed: j.Seed, Batch: b, Index: n,
+			c := &Case{Property: "C17", Layer: "R", Oracle: fmt.Sprintf("depth %s/%s nested=%d", tkName[kind], tkName[quiet], nested), Seed: j.Seed, Batch: b, Index: n,
 				Sc:  &Scenario{Terms: []*Term{depthTerm(kind, n, quiet, nested)}, RootOf: []int{0}},
 				Alt: &Scenario{Terms: []*Term{depthTerm(kind, 10*n, quiet, nested)}, RootOf: []int{0}}, PanicAt: -1}
 			v := evalDepth(c)
